@@ -227,6 +227,9 @@ def handleLink : List String → String
     let G : Prog String := { imports := gImports gr, nitems := fun p => p.length % 3 }
     let sched := fun (p : String) (i : Nat) => (p.length + i + k) % 3
     ",".intercalate ((programTrace G sched (gr.length + 2) rt mn).map showEv)
+  | ["closure", root, g] =>
+    let gr := parseGraph g
+    ",".intercalate (collect (gImports gr) (gr.length + 2) [] root)
   | ["imports", l] => ",".intercalate (sortImports (splitList l ","))
   | ["files", l] => ",".intercalate (sortFiles (splitList l ","))
   | ["boot"] => ",".intercalate ["finishSetup", "synthesizeMethods", "initLinknames", "runtime.$init", "$go(main.$init)"]
